@@ -402,6 +402,22 @@ Theorem C15_collapse_to_base_right_halfcell_keeps_wf2 `{Sig} : forall E n ks pe 
 Proof. exact halfcell_to_base_boundary_mirror_wf. Qed.
 Print Assumptions C15_collapse_to_base_right_halfcell_keeps_wf2.
 
+(** ... and when the dart in the third slot is glued to q (mirrored variant of C15_collapse_to_base_inner_merges_cell):
+    e, ne and q disappear and the first-slot dart takes the place of q in the neighbouring face.  On every store. *)
+Theorem C15_collapse_to_base_right_halfcell_merges_cell `{Sig} : forall E n ks pe e ne c w cnt w' cnt',
+  let q := beta w 2 ne in let p0 := beta w 0 q in let p1 := beta w 1 q in
+  NoDup [pe; e; ne; q; p0; p1] -> ~ In 0 [pe; e; ne; q; p0; p1] ->
+  beta w 1 e = pe -> beta w 1 pe = ne -> beta w 1 ne = e -> beta w 1 p0 = q -> beta w 2 e = 0 ->
+  run E (collapse_halfcell_to_base n ks pe e ne) c w cnt = (Done tt, w', cnt') ->
+  (forall i y, beta w' i y =
+     if (y =? e) || (y =? ne) || (y =? q) then (if i <? 3 then 0 else beta w i y)
+     else if (i =? 1) && (y =? pe) then p1 else if (i =? 0) && (y =? pe) then p0
+     else if (i =? 1) && (y =? p0) then pe else if (i =? 0) && (y =? p1) then pe
+     else beta w i y) /\
+  (forall y, unused w' y = if (y =? e) || (y =? ne) || (y =? q) then true else unused w y).
+Proof. exact halfcell_to_base_inner_mirror. Qed.
+Print Assumptions C15_collapse_to_base_right_halfcell_merges_cell.
+
 (** Non-vacuity: in the unit square above (triangles 1 -> 2 -> 3 and 4 -> 5 -> 6 glued along 3 | 4), once the diagonal
     is unsewn -- the store the driver hands to the right half-cell -- the call (b1r, r, b0r) = (5, 4, 6) meets the
     mirrored premises: 4 -> 5 -> 6 -> 4, and 6, 4 and 5 are all 2-free (x = 0). *)
